@@ -45,7 +45,7 @@ NUMERIC_HUGE = [b"2147483648", b"4294967296", b"9223372036854775807", b"92233720
                 b"100000000000000000000000000", b"10000000", b"9999990", b"1099511627776", b"268435457", b"140737488355328"]
 
 TE_VALUES = [b"chunked", b"Chunked", b"CHUNKED", b"gzip, chunked", b"chunked, gzip", b"gzip", b"a,b , cHuNkEd",
-             b"foo, bar, chunked", b"chunked,", b",chunked", b"identity", b" chunked ", b"chunked;q=1", b"xchunked", b""]
+             b"foo, bar, chunked", b"foo, bar,, chunked", b",, chunked", b"a,,b , chunked", b"chunked,", b",chunked", b"identity", b" chunked ", b"chunked;q=1", b"xchunked", b""]
 
 
 def randcase(rng, b: bytes) -> bytes:
